@@ -214,6 +214,9 @@ void OPNMIDIplay::resetMIDI()
 
     m_midiChannels.clear();
     m_midiChannels.resize(16, MIDIchannel());
+    // The channel blocks of the extra devices are gone with the table
+    m_midiDevices.clear();
+    m_currentMidiDevice.clear();
 
     resetMIDIDefaults();
 
@@ -1117,6 +1120,15 @@ size_t OPNMIDIplay::realTime_currentDevice(size_t track)
     if(m_currentMidiDevice.empty())
         return 0;
     return m_currentMidiDevice[track];
+}
+
+void OPNMIDIplay::realTime_SongBegin()
+{
+    // Device switches and mode-setting SysEx messages of the part of the song that
+    // has been left (seek, rewind, next pass of a whole-song loop) are not in force
+    m_currentMidiDevice.clear();
+    m_synthMode = Mode_XG;
+    realTime_ResetState();
 }
 
 #if defined(ADLMIDI_AUDIO_TICK_HANDLER)
